@@ -904,7 +904,7 @@ pub fn run_case(w: &World, case: &Case, seed: u64, out: &mut Out) {
                     _ => "None".to_string(),
                 };
                 out.findcases.push(format!(
-                    "({}, {}, \"{}\", {})",
+                    "({}, {}, \"{}\", 0, 8, {})",
                     case.id,
                     gen_desc_term(keys_j),
                     hex(target.as_bytes()),
@@ -924,6 +924,131 @@ pub fn run_case(w: &World, case: &Case, seed: u64, out: &mut Out) {
                     if let Some(pks) = keys_j.iter().map(|k| k.oracle_pk(w, i)).collect::<Option<Vec<PublicKey>>>() {
                         let e = expect_for(w, &case.shape, &pks);
                         out.note_instance(&case.shape, &pks, &e, None);
+                    }
+                }
+            }
+        }
+        // ---------------- ... also on ranges that do not start at 0: the reported index is the
+        // derivation index (not the offset in the range), lies in the range, derives the returned
+        // descriptor, and is the one an independent scan with bitcoin::bip32 finds
+        if !xprv {
+            const STARTS: [u32; 4] = [1, 3, 50, 0x7fff_fffb];
+            let n_q = if j == 0 { 3 } else { 1 };
+            for q in 0..n_q {
+                let start = STARTS[(case.id as usize + q + j) % 4];
+                let len = [1u32, 4, 9][r.below(3) as usize];
+                let end = start + len;
+                // target at the start / at the last index / inside / just below / just above the range
+                let pos = r.below(5);
+                let t = match pos {
+                    0 => start,
+                    1 => end - 1,
+                    2 => start + r.below(len as u64) as u32,
+                    3 => start - 1,
+                    _ => end,
+                };
+                let spk_at = |i: u32| -> Option<ScriptBuf> {
+                    keys_j
+                        .iter()
+                        .map(|k| k.oracle_pk(w, i))
+                        .collect::<Option<Vec<PublicKey>>>()
+                        .map(|pks| expect_for(w, &case.shape, &pks).spk)
+                };
+                if keys_j.iter().map(|k| k.oracle_pk(w, 0)).collect::<Option<Vec<PublicKey>>>()
+                    .map(|pks| impl_like_order_spk(w, &case.shape, &pks).is_some())
+                    .unwrap_or(false)
+                {
+                    break; // sortedmulti with uncompressed keys: the known finding, judged elsewhere
+                }
+                // a script nobody derives when the chosen index is not derivable
+                let target = spk_at(t).unwrap_or_else(|| ScriptBuf::from_bytes(vec![0x6a, 0x01, 0x16]));
+                // ORACLE: scan the range with independent derivation
+                let expected: Result<Option<u32>, ()> = if !has_wild {
+                    match spk_at(0) {
+                        None => Err(()),
+                        Some(s0) => Ok(if s0 == target { Some(0) } else { None }),
+                    }
+                } else {
+                    let mut e = Ok(None);
+                    for i in start..end {
+                        match spk_at(i) {
+                            None => {
+                                e = Err(());
+                                break;
+                            }
+                            Some(si) if si == target => {
+                                e = Ok(Some(i));
+                                break;
+                            }
+                            _ => {}
+                        }
+                    }
+                    e
+                };
+                let found = catch_unwind(AssertUnwindSafe(|| {
+                    dj.find_derivation_index_for_spk(secp, &target, start..end).map_err(|e| err_class(&e))
+                }));
+                out.count("find_index_range_queries");
+                out.h("find_range", &format!("start={} len={} target={}", start, len, ["first", "last", "inside", "below", "above"][pos as usize]));
+                let (ok, got_s) = match &found {
+                    Err(_) => (false, "panic".to_string()),
+                    Ok(Err(e)) => (expected.is_err(), format!("Err({})", e)),
+                    Ok(Ok(None)) => (expected == Ok(None), "None".to_string()),
+                    Ok(Ok(Some((i, dd)))) => {
+                        let in_range = !has_wild || (start <= *i && *i < end);
+                        let same_desc = catch_unwind(AssertUnwindSafe(|| dj.derived_descriptor(secp, *i).ok().as_ref() == Some(dd)))
+                            .unwrap_or(false);
+                        (
+                            in_range && same_desc && dd.script_pubkey() == target && expected == Ok(Some(*i)),
+                            format!("Some(index {}, {:#})", i, dd),
+                        )
+                    }
+                };
+                if !ok {
+                    out.violation(
+                        "find-index-range",
+                        case,
+                        &sj,
+                        Some(t),
+                        &format!(
+                            "find_derivation_index_for_spk over {}..{} for the script of index {} returns {}; an independent scan \
+                             of the range gives {:?} (the reported index must lie in the range, derive the returned descriptor \
+                             and the searched script)",
+                            start, end, t, got_s, expected
+                        ),
+                        &format!(",\"range\":[{},{}],\"reported\":{}", start, end, jstr(&got_s)),
+                    );
+                }
+                // model tie on the same range
+                if j == 0 && q == 0 && case.id % 3 == 0 {
+                    let res = match &found {
+                        Ok(Ok(Some((i, _)))) => format!("(Some {})", i),
+                        _ => "None".to_string(),
+                    };
+                    out.findcases.push(format!(
+                        "({}, {}, \"{}\", {}, {}, {})",
+                        case.id,
+                        gen_desc_term(keys_j),
+                        hex(target.as_bytes()),
+                        start,
+                        len,
+                        res
+                    ));
+                    let idxs: Vec<u32> = if has_wild { (start..end).collect() } else { vec![0] };
+                    for i in idxs {
+                        for k in keys_j {
+                            if let (GKey::X { xk, wild, .. }, Some(pk)) = (k, k.oracle_pk(w, i)) {
+                                let mut p = k.paths().remove(0);
+                                if *wild == 1 {
+                                    p.push(ChildNumber::from_normal_idx(i).unwrap());
+                                }
+                                out.ckd.insert(format!("({}, {}, \"{}\")", xk, coq_steps(&p), hex(&pk.to_bytes())));
+                            }
+                        }
+                        if let Some(pks) = keys_j.iter().map(|k| k.oracle_pk(w, i)).collect::<Option<Vec<PublicKey>>>() {
+                            let e = expect_for(w, &case.shape, &pks);
+                            out.note_instance(&case.shape, &pks, &e, None);
+                        }
                     }
                 }
             }
